@@ -271,7 +271,7 @@ class Gen:
         elif name == 'del_metadata':
             ev.update(ax=rng.randrange(3), keys=rng.randrange(1, 16),
                       all=int(rng.random() < 0.2),
-                      extra=int(rng.random() < 0.2))
+                      extra=int(rng.random() < 0.2), kform=rng.randrange(3))
             mutating_inplace = True
         elif name == 'transform':
             ev.update(fam=rng.randrange(CB.N_TRANS), salt=rng.randrange(100),
@@ -355,7 +355,8 @@ class Gen:
         s = self._slot(w)
         ref = w.pool[s].ref
         ev = {'k': 'read', 'name': name, 'slot': s, 'ax': rng.randrange(2),
-              'i': rng.randrange(12), 'j': rng.randrange(12)}
+              'i': rng.randrange(12), 'j': rng.randrange(12),
+              'pos': int(rng.random() < 0.3)}
         if name in ('data', 'iter', 'iter_data'):
             ev['sparse'] = int(rng.random() < 0.3)
             ev['dunder'] = int(rng.random() < 0.2)
